@@ -84,10 +84,24 @@ DIFF = ["powerConvMult", "d1Multiplier", "d1Additive", "d2Additive", "d3Multipli
 
 
 def bands(ng, full):
-    """(NUP, NDN) per group: in-group scattering only, or every group of the (<= 2 group) structure"""
+    """(NUP, NDN) per group: in-group scattering only (full = False / 0), every group of the (<= 2 group) structure
+    (True / 1), down-scatter only (2: the usual fast-spectrum layout), up-scatter only (3)"""
     if ng == 1 or not full:
         return [0] * ng, [0] * ng
+    if full == 2:
+        return [0, 0], [0, 1]
+    if full == 3:
+        return [1, 0], [0, 0]
     return [1, 0], [0, 1]
+
+
+def in_band(full, r, c):
+    """is the transfer from group r into group c stored under this layout? (column = destination group)"""
+    if full == 2:
+        return r <= c
+    if full == 3:
+        return r >= c
+    return bool(full) or r == c
 
 
 def compxs_library(ncomp, ng, maxord, full, ispec, x, w):
@@ -97,7 +111,7 @@ def compxs_library(ncomp, ng, maxord, full, ispec, x, w):
     lib = CompxsLibrary()
     m = lib.compxsMetadata
     vals = {"numComps": ncomp, "numGroups": ng, "fileWideChiFlag": 0, "numFissComps": len([k for k in range(ncomp) if ispec[k] > 0]),
-            "maxUpScatterGroups": 1 if full else 0, "maxDownScatterGroups": 1 if full else 0, "numDelayedFam": 0, "maxScatteringOrder": maxord,
+            "maxUpScatterGroups": max(bands(ng, full)[0]), "maxDownScatterGroups": max(bands(ng, full)[1]), "numDelayedFam": 0, "maxScatteringOrder": maxord,
             "reservedFlag1": 0, "reservedFlag2": 0}
     for key in vals:
         m[key] = vals[key]
@@ -121,7 +135,7 @@ def compxs_library(ncomp, ng, maxord, full, ispec, x, w):
             reg.macros.nuSigF = np.array([w[k][12] + g for g in range(ng)])
             reg.macros.chi = np.array([[w[k][13] + g + 10.0 * c for c in range(ispec[k])] for g in range(ng)])
         for order in range(maxord + 1):
-            rows = [[(w[k][14] + r + 2.0 * c + 4.0 * order if (full or r == c) else 0.0) for c in range(ng)] for r in range(ng)]
+            rows = [[(w[k][14] + r + 2.0 * c + 4.0 * order if in_band(full, r, c) else 0.0) for c in range(ng)] for r in range(ng)]
             if order == 0:
                 reg.macros.totalScatter = csc(rows)
             else:
@@ -358,3 +372,43 @@ def compxs_group_record_fields_follow_the_flags(group: int, maxord: int, full: b
         expected = expected + [("int", nfam)]
     expected = expected + ["double"] + [band] * maxord
     assert rec.trace == expected, "fields exactly as the composition's flags announce, in file order"
+
+
+# ----------------------------------------------------------------------------- widened shapes (assumption review)
+@lemma(gen={"layout": (2, 3), "maxord": (0, 1), "s0": (0, 1), "w0": F64, "w1": F64, "x0": F64}, overrides=OVERRIDES)
+def compxs_triangular_scatter_bands_round_trip(layout: int, maxord: int, s0: int, w0: float, w1: float, x0: float):
+    """the two lemmas above enumerate the in-group and the full band only.  The layouts in between - DOWN-scatter only
+    (NUP = 0 everywhere; the usual fast-spectrum file) and UP-scatter only - have bands of different width per group:
+    2 groups, 1 composition, MAXORD 0..1, fissionable or not: record lengths as the structure prescribes, every
+    scattering matrix read back, write(read(file)) == file"""
+    layout, maxord, s0 = choose(layout, 2, 3), choose(maxord, 0, 1), choose(s0, 0, 1)
+    x = [x0, x0 + 1.0, 3.0, 2.0, 1.0, 0.5, 0.25, 0.125, 4.0]
+    w = [w0 + k for k in range(14)] + [w1]
+    lib, vals = compxs_library(1, 2, maxord, layout, [s0, 0], x, [w, w])
+    st = memstream()
+    compxs_io("wb", st, lib).readWrite()
+    sizes = record_sizes(1, 2, maxord, layout, [s0, 0])
+    assert st.nwrites() == 3 * len(sizes), "exactly the records of the file structure"
+    for r in range(len(sizes)):
+        (count,) = struct.unpack("i", st.written(3 * r))
+        assert count == sizes[r], "record length as the file structure prescribes"
+    st.seek(0)
+    back = CompxsLibrary()
+    compxs_io("rb", st, back).readWrite()
+    ref, vals = compxs_library(1, 2, maxord, layout, [s0, 0], x, [w, w])
+    for key in TAGS:
+        assert back.compxsMetadata[key] == vals[key], "specification integer read back"
+    b, a = back[0], ref[0]
+    assert list(b.metadata["numUpScatterGroups"]) == a.metadata["numUpScatterGroups"]
+    assert list(b.metadata["numDownScatterGroups"]) == a.metadata["numDownScatterGroups"]
+    for name in PRIMARY:
+        assert same_array(b.macros[name], a.macros[name]), "principal cross section read back"
+    assert same_array(b.macros.totalScatter.toarray(), a.macros.totalScatter.toarray()), "scattering matrix read back"
+    assert len(b.macros.higherOrderScatter) == maxord
+    for order in range(1, maxord + 1):
+        assert same_array(b.macros.higherOrderScatter[order].toarray(), a.macros.higherOrderScatter[order].toarray())
+    st2 = memstream()
+    compxs_io("wb", st2, back).readWrite()
+    assert st2.nwrites() == st.nwrites(), "same number of records"
+    for k in range(st.nwrites()):
+        assert st2.written(k) == st.written(k), "same bytes"
